@@ -90,6 +90,20 @@ func c16Engine(k int) *twig.Engine {
 	return e
 }
 
+// c16NewerLoader has one name, other text, and reports a modification time far in the future
+type c16NewerLoader struct{ name string }
+
+func (l *c16NewerLoader) Load(n string) (string, error) {
+	if n == l.name {
+		return "NEWER DECOY", nil
+	}
+	return "", fmt.Errorf("%w: %s", twig.ErrTemplateNotFound, n)
+}
+func (l *c16NewerLoader) Exists(n string) bool { return n == l.name }
+func (l *c16NewerLoader) GetModifiedTime(n string) (int64, error) {
+	return time.Now().Unix() + 86400, nil
+}
+
 type c16Out struct {
 	out string
 	err bool
@@ -451,6 +465,30 @@ func runC16(cases string, res *Result) {
 			cmp("RegisterCompiledTemplate", b1, b1.RegisterCompiledTemplate(back))
 			b2 := c16Engine(k)
 			cmp("LoadFromCompiledData", b2, b2.LoadFromCompiledData(ser))
+			// an engine whose loader knows the same name with other text: the registration is what the name stands for,
+			// whatever the cache and reload settings are
+			if c.num("ctxid") == 0 {
+				for di, set := range []func(e *twig.Engine){
+					func(e *twig.Engine) {},
+					func(e *twig.Engine) { e.SetCache(false) },
+					func(e *twig.Engine) { e.SetAutoReload(true) },
+					func(e *twig.Engine) { e.SetDevelopmentMode(true); twig.SetDebugLevel(twig.DebugOff) },
+				} {
+					for li, ld := range []twig.Loader{twig.NewArrayLoader(map[string]string{name: "DECOY"}), &c16NewerLoader{name: name}} {
+						b5 := c16Engine(k)
+						b5.RegisterLoader(ld)
+						set(b5)
+						route := fmt.Sprintf("decoy-loader-%d/settings-%d/", li, di)
+						res.Hist["render:engine-with-a-loader-that-has-the-name-too"]++
+						if (di+li)%2 == 0 {
+							cmp(route+"RegisterCompiledTemplate", b5, b5.RegisterCompiledTemplate(back))
+						} else {
+							cmp(route+"LoadFromCompiledData", b5, b5.LoadFromCompiledData(ser))
+						}
+					}
+				}
+				twig.SetDebugLevel(twig.DebugOff)
+			}
 			if k == 0 || k == 2 {
 				ld := twig.NewCompiledLoader(dir)
 				if err := ld.SaveCompiled(a, name); err != nil {
@@ -644,6 +682,35 @@ func c16File(res *Result, c Case, dir string, eng *twig.Engine, name, src string
 	re, _ := twig.SerializeCompiledTemplate(ct)
 	if !bytes.Equal(re, raw) {
 		oracle("file/content", c, c16Clip(string(raw)), c16Clip(string(re)), "re-serialising what the file deserialises to gives different bytes")
+	}
+	// a second template whose name differs from the first by the loader's own suffix, in the same directory: each
+	// name has its own file
+	if !strings.Contains(name, "/") {
+		other := name + ".twig"
+		if strings.HasSuffix(name, ".twig") {
+			other = strings.TrimSuffix(name, ".twig")
+		}
+		if other != "" {
+			osrc := "other template " + other + " {{ 2 + 2 }}"
+			eo := twig.New()
+			if eo.RegisterString(other, osrc) == nil && eo.RegisterString(name, src) == nil {
+				d2 := filepath.Join(dir, "pair")
+				os.MkdirAll(d2, 0o755)
+				e1 := twig.NewCompiledLoader(d2).SaveCompiled(eo, name)
+				e2 := twig.NewCompiledLoader(d2).SaveCompiled(eo, other)
+				res.Evaluations++
+				res.Hist["file:two-names-differing-by-the-suffix"]++
+				if e1 == nil && e2 == nil {
+					g1, l1 := twig.NewCompiledLoader(d2).Load(name)
+					g2, l2 := twig.NewCompiledLoader(d2).Load(other)
+					if l1 != nil || l2 != nil || g1 != src || g2 != osrc {
+						oracle("file/two names", c, c16Clip(src)+" | "+c16Clip(osrc), fmt.Sprintf("%s (err=%v) | %s (err=%v)", c16Clip(g1), l1, c16Clip(g2), l2),
+							"templates "+strconv.Quote(name)+" and "+strconv.Quote(other)+" saved into one directory are not both read back as they were")
+					}
+				}
+				os.RemoveAll(d2)
+			}
+		}
 	}
 	// the template changes and is saved again into the same directory (within the same second, and with a loader
 	// that reports no time stamps): the file follows the template
